@@ -10,6 +10,9 @@
  *           systems with duplicated equations / missing unknowns
  *   applym  vnacal_apply_m on multi-port calibrations whose receivers have
  *           badly scaled gains (row-scaled systems)
+ *   wsolve  over-determined noisy 2 x 2 solves (E12 / UE14 column systems,
+ *           T8) with and without a measurement-error model, each solved
+ *           with the standards in two different orders
  *
  * usage: drv_linsys CASEFILE SEED FROM TO
  * Every line of CASEFILE is one case:
@@ -1110,6 +1113,174 @@ emit:
 	LIBV(vnacal_new_free(vnp));
 }
 
+/*
+ * wsolve: an over-determined, inconsistent (noisy) 2 x 2 calibration solved
+ * twice with its standards added in two different orders -- a pure row
+ * permutation of the least-squares systems -- with or without a
+ * measurement-error model (vnacal_new_set_m_error: every equation weighted
+ * by 1/sqrt(sigma_nf^2 + sigma_tr^2 |m|^2)).  Types solved as one system
+ * per driven column (E12, UE14) and one single-system type (T8).
+ * Standards: m1 reflects on port 1 (1 x 1 readings), m2 reflects on port 2,
+ * one through (2 x 2).  Observation: both solves succeed alike and the two
+ * calibrations correct one probe measurement to the same S (1e-9): the
+ * (weighted) least-squares minimiser does not depend on the row order.
+ */
+static void do_wsolve(const lcase_t *lc)
+{
+    static const vnacal_type_t types[3] = { VNACAL_E12, VNACAL_UE14,
+	VNACAL_T8 };
+    static const char *tnames[3] = { "E12", "UE14", "T8" };
+    int ti = atoi(lc->fn) % 3;
+    int weighted = lc->m != 0;
+    int order = lc->nperm >= 1 ? lc->perm[0] : 0;
+    int m1 = lc->nrowmap >= 2 ? lc->rowmap[0] : 4;
+    int m2 = lc->nrowmap >= 2 ? lc->rowmap[1] : 4;
+    m8_t e;
+    double f = FREQ;
+    double snf = 2.0e-3, str = 5.0e-3;
+    double complex g1[MMAX], g2[MMAX], r1[MMAX], r2[MMAX], thru[4];
+    int h1[MMAX], h2[MMAX];
+    double complex Sp[4], Mp[4], out[2][4];
+    double complex common = cphase();
+    int okv[2] = { 0, 0 }, same = 0;
+    static int serial;
+
+    if (m1 > MMAX)
+	m1 = MMAX;
+    if (m2 > MMAX)
+	m2 = MMAX;
+    m8_draw(&e, 2, NULL, lc->vc);
+    /* port 2 sees much smaller signals than port 1: the weights of the two
+     * column systems differ */
+    e.a[1] *= 0.05;
+    e.ed[1] *= 0.05;
+    for (int k = 0; k < 2; ++k) {
+	int m = k == 0 ? m1 : m2;
+	double complex *g = k == 0 ? g1 : g2, *r = k == 0 ? r1 : r2;
+	int *h = k == 0 ? h1 : h2;
+	m8_t one;
+
+	one.p = 1;
+	one.ed[0] = e.ed[k];
+	one.a[0] = e.a[k];
+	one.b[0] = e.b[k];
+	one.em[0] = e.em[k];
+	for (int i = 0; i < m; ++i) {
+	    g[i] = draw_gamma(lc->vc, 0.2, 1.0, common);
+	    m8_measure(&one, &g[i], &r[i]);
+	    /* noise of about half a sigma */
+	    r[i] += cphase() * 0.5 * sqrt(snf * snf + str * str *
+		    creal(r[i] * conj(r[i])));
+	    h[i] = LIB(vnacal_make_scalar_parameter(vcp, g[i]));
+	}
+    }
+    {
+	double complex St[4] = { 0.0, 1.0, 1.0, 0.0 };
+
+	m8_measure(&e, St, thru);
+	for (int i = 0; i < 4; ++i)
+	    thru[i] += cphase() * 0.5 * sqrt(snf * snf + str * str *
+		    creal(thru[i] * conj(thru[i])));
+    }
+    for (int i = 0; i < 4; ++i)
+	Sp[i] = crand(0.6);
+    m8_measure(&e, Sp, Mp);
+    for (int run = 0; run < 2; ++run) {
+	vnacal_new_t *vnp;
+	int idx1[MMAX], ci = -1, bad = 0;
+	int thru_first = run == 1 && order == 2;
+	char name[24];
+
+	for (int i = 0; i < m1; ++i) {
+	    idx1[i] = i;
+	    if (run == 1 && order == 0)
+		idx1[i] = m1 - 1 - i;		/* reversed */
+	    if (run == 1 && order == 1)
+		idx1[i] = (i + 1) % m1;		/* rotated */
+	}
+	vt_cb_reset();
+	vnp = LIB(vnacal_new_alloc(vcp, types[ti], 2, 2, 1));
+	if (vnp == NULL)
+	    continue;
+	if (LIB(vnacal_new_set_frequency_vector(vnp, &f)) == -1)
+	    bad = 1;
+	if (!bad && weighted) {
+	    if (LIB(vnacal_new_set_m_error(vnp, NULL, 1, &snf, &str)) == -1 ||
+		    LIB(vnacal_new_set_pvalue_limit(vnp, 1.0e-300)) == -1)
+		bad = 1;
+	}
+	for (int step = 0; step < 3 && !bad; ++step) {
+	    int what = thru_first ? (step + 2) % 3 : step;
+
+	    if (what == 0) {
+		for (int i = 0; i < m1 && !bad; ++i) {
+		    double complex *mp[1] = { &r1[idx1[i]] };
+
+		    if (LIB(vnacal_new_add_single_reflect_m(vnp, mp, 1, 1,
+				    h1[idx1[i]], 1)) == -1)
+			bad = 1;
+		}
+	    } else if (what == 1) {
+		for (int i = 0; i < m2 && !bad; ++i) {
+		    double complex *mp[1] = { &r2[i] };
+
+		    if (LIB(vnacal_new_add_single_reflect_m(vnp, mp, 1, 1,
+				    h2[i], 2)) == -1)
+			bad = 1;
+		}
+	    } else {
+		double complex *mp[4] = { &thru[0], &thru[1], &thru[2],
+		    &thru[3] };
+
+		if (LIB(vnacal_new_add_through_m(vnp, mp, 2, 2, 1, 2)) == -1)
+		    bad = 1;
+	    }
+	}
+	if (!bad && LIB(vnacal_new_solve(vnp)) == 0) {
+	    snprintf(name, sizeof(name), "ws%d", serial++);
+	    if (LIB(vnacal_add_calibration(vcp, name, vnp)) != -1 &&
+		    (ci = LIB(vnacal_find_calibration(vcp, name))) >= 0) {
+		double complex *mp[4] = { &Mp[0], &Mp[1], &Mp[2], &Mp[3] };
+		vnadata_t *vdp = LIB(vnadata_alloc(vt_errfn, NULL));
+
+		if (LIB(vnacal_apply_m(vcp, ci, &f, 1, mp, 2, 2, vdp)) == 0) {
+		    for (int i = 0; i < 4; ++i)
+			out[run][i] = vnadata_get_cell(vdp, 0, i / 2, i % 2);
+		    okv[run] = oc_all_finite(out[run], 4);
+		}
+		LIBV(vnadata_free(vdp));
+		LIB(vnacal_delete_calibration(vcp, ci));
+	    }
+	} else if (dbg) {
+	    fprintf(stderr, "wsolve run %d failed: %s\n", run, vt_cb.last);
+	}
+	LIBV(vnacal_new_free(vnp));
+    }
+    if (okv[0] && okv[1]) {
+	double worst = 0.0;
+
+	for (int i = 0; i < 4; ++i) {
+	    double d = cabs(out[0][i] - out[1][i]);
+
+	    if (!(d <= worst))
+		worst = d;
+	}
+	same = worst <= 1.0e-9;
+	if (dbg)
+	    fprintf(stderr, "wsolve %s w=%d order=%d worst=%.3g\n",
+		    tnames[ti], weighted, order, worst);
+    }
+    vt_put("{\"e\":\"WSolve\",\"type\":\"%s\",\"vc\":\"%s\",\"weighted\":%d,"
+	    "\"order\":%d,\"m1\":%d,\"m2\":%d,\"ok1\":%d,\"ok2\":%d,\"same\":%d}",
+	    tnames[ti], vc_names[lc->vc % VC_COUNT], weighted, order, m1, m2,
+	    okv[0], okv[1], same);
+    vt_end_line();
+    for (int i = 0; i < m1; ++i)
+	LIB(vnacal_delete_parameter(vcp, h1[i]));
+    for (int i = 0; i < m2; ++i)
+	LIB(vnacal_delete_parameter(vcp, h2[i]));
+}
+
 /* ------------------------------------------------------------------ main */
 
 int main(int argc, char **argv)
@@ -1164,6 +1335,8 @@ int main(int argc, char **argv)
 	    do_tall(&lc);
 	else if (strcmp(lc.kind, "applym") == 0)
 	    do_applym(&lc);
+	else if (strcmp(lc.kind, "wsolve") == 0)
+	    do_wsolve(&lc);
 	else {
 	    fprintf(stderr, "unknown kind %s\n", lc.kind);
 	    return 2;
